@@ -882,6 +882,26 @@ func c13kube(c *Ctx) {
 		lockGuardFn(c, rule, pkg+".(*EventHandler)."+m+"#lock", c.fn(rule, pkg, "(*EventHandler)."+m), "lock", []string{"endpoints"}, false, true, []string{"notify"}, false)
 	}
 	isUpdateCall := px.DynWhere(func(s *px.Sym) bool { return px.IsFieldLoad(s, "update", nil) })
+	// the set-comparison helper is identified by its role (a package function taking two address sets and
+	// returning bool, called by Update), not by its name
+	var diffFn *ssa.Function
+	if uf := c.P.Func(pkg, "(*EventHandler).Update"); uf != nil {
+		for _, b := range uf.Blocks {
+			for _, ins := range b.Instrs {
+				if call, ok := ins.(*ssa.Call); ok {
+					if cal := call.Call.StaticCallee(); cal != nil && cal.Signature.Recv() == nil && cal.Signature.Params().Len() == 2 && cal.Signature.Results().Len() == 1 && cal.Pkg == uf.Pkg {
+						if _, isMap := cal.Signature.Params().At(0).Type().Underlying().(*types.Map); isMap {
+							diffFn = cal
+						}
+					}
+				}
+			}
+		}
+	}
+	if diffFn == nil {
+		c.R.Undecided(rule, pkg+".diff", "anchor resolves", "the set-comparison helper called by Update was not found")
+	}
+	isDiffCall := px.CallsFn(diffFn)
 	for _, m := range []struct {
 		name string
 		add  bool
@@ -941,7 +961,7 @@ func c13kube(c *Ctx) {
 		})
 	}
 	if f := c.fn(rule, pkg, "(*EventHandler).Update"); f != nil {
-		ps := c.paths(rule, f, px.Config{MaxVisits: 2, MaxPaths: 100000, Inline: inl})
+		ps := c.paths(rule, f, px.Config{MaxVisits: 2, MaxPaths: 100000, Inline: inl, Keep: map[*ssa.Function]bool{diffFn: true}})
 		epP := f.Params[1]
 		c.forall(rule, pkg+".(*EventHandler).Update", "the address set is replaced by a fresh map holding exactly the addresses of the new object (filled after the replacement), and the resolver is notified iff diff(previous set, new set)", f, ps, func(p *px.Path) (bool, string) {
 			if p.Exit == px.ExitCut {
@@ -970,7 +990,7 @@ func c13kube(c *Ctx) {
 					return false, "a stored key is not an address IP of the new object"
 				}
 			}
-			d := p.All(calleeIs(pkg + ".diff"))
+			d := p.All(isDiffCall)
 			if p.Exit != px.ExitReturn {
 				return true, ""
 			}
@@ -988,9 +1008,9 @@ func c13kube(c *Ctx) {
 		})
 		c.R.Check(len(earlyExitLoops(f)) == 0, rule, pkg+".(*EventHandler).Update#all", "every subset and every address is visited (no early exit)", posOf(c, f), fmt.Sprint(earlyExitLoops(f)), nil, 2)
 	}
-	if f := c.fn(rule, pkg, "diff"); f != nil {
+	if f := diffFn; f != nil {
 		ps := c.paths(rule, f, px.Config{MaxVisits: 2})
-		c.forall(rule, pkg+".diff", "true when the sizes differ or some key of the old set is missing from the new one; false only after every old key was found", f, ps, func(p *px.Path) (bool, string) {
+		c.forall(rule, pkg+".diff", "(set-comparison helper, found by role) true when the sizes differ or some key of the old set is missing from the new one; false only after every old key was found", f, ps, func(p *px.Path) (bool, string) {
 			if p.Exit != px.ExitReturn {
 				return true, ""
 			}
